@@ -224,7 +224,7 @@ func (e *Engine) noteLoaded(st *State, t types.Type, v *Term) {
 	e.loadedFacts[v.id] = true
 	// the cell is meaningful only if its object existed when this heap was current
 	lobj := LocObj(v.Args[1])
-	g := And(Lt(lobj, bound), Gt(lobj, IntT(0)))
+	g := Lt(lobj, bound)
 	e.wellFormedValueIf(g, t, v, bound)
 	if isInput {
 		e.inputObjFactsIf(g, t, v)
